@@ -198,3 +198,279 @@ Theorem C16_filter_is_the_source_one :
   forall c, MLAGen.Src.component_action (embed_component c) = embed_action (component_action c).
 Proof. exact component_action_eq. Qed.
 Print Assumptions C16_filter_is_the_source_one.
+
+(* ==================================================================================================== *)
+(* Work package `extract`: (A) the on-demand writer POOL of the whole-archive form (theories/Pool.v:
+   FileWriter + LruCache of FILE_WRITER_POOL_SIZE handles, re-opened in append mode on a miss);
+   (B) ONE closed statement per form from archive BYTES to the file system (theories/CliExtract.v). *)
+From MLA Require Import Stream Blocks Writer Reader RoundTripBlocks RoundTripWriter RoundTripReader RoundTrip CompLayer EncLayer Format Ecies Archive Cli Pool PoolProofs PoolTie CliExtract CliExtractProofs.
+From Coq Require Import Permutation.
+
+(* (A) ANY capacity, ANY sequence of FileWriter::write calls — any literal paths, repeated and
+   interleaved, resolving or not, any buffers — from any reachable pool state (pool_ok: every
+   open handle is an append handle on the regular file its path resolves to; the empty pool is):
+   hits, misses with eviction and append-mode re-opens produce THE SAME file system and status as
+   re-opening in append mode for every single write (Path.append_path, what Path.extract_linear
+   does), also when a re-open fails on the way; and the pool stays pool_ok *)
+Theorem C16_pool_transparent :
+  forall cap ws f pl, pool_ok f pl ->
+    exists pl', pool_run RAppend cap ws f pl = (fst (direct_run ws f), pl', snd (direct_run ws f)) /\
+                pool_ok (fst (direct_run ws f)) pl'.
+Proof. exact pool_transparent. Qed.
+
+(* ... hence per-file concatenation: after a successful run through the pool every regular
+   file holds what it held followed by the buffers written to the paths that resolve to it, in
+   order, and nothing else changed *)
+Theorem C16_pool_per_file_concatenation :
+  forall cap ws f f' pl', pool_run RAppend cap ws f [] = (f', pl', true) ->
+    (forall q d, lookup f q = Some (File d) -> lookup f' q = Some (File (d ++ written_to f q ws))) /\
+    (forall p, (forall d, lookup f p <> Some (File d)) -> lookup f' p = lookup f p).
+Proof. exact pool_run_content. Qed.
+
+(* never more than `cap` handles open (the reason the pool exists), any re-open mode *)
+Theorem C16_pool_bounded :
+  forall m cap ws, (1 <= cap)%nat -> forall f pl, (length pl <= cap)%nat -> (pool_peak m cap ws f pl <= cap)%nat.
+Proof. exact pool_bounded. Qed.
+
+(* the whole-archive form THROUGH THE POOL — pre-pass create_file for every name, then the blocks
+   cut into write buffers in ANY way (`cut`; an empty block makes no write call) through a pool of
+   ANY capacity — ends with the same status and the same file system (every lookup equal) as
+   Path.extract_linear, about which the theorems above speak *)
+Theorem C16_linear_through_pool :
+  forall cap cut out names blocks f, (forall d, concat (cut d) = d) ->
+    exists f', extract_linear_pool RAppend cap cut out names blocks f =
+                 (f', snd (extract_linear out names blocks f)) /\
+               same_fs f' (fst (extract_linear out names blocks f)).
+Proof. exact extract_linear_pool_same. Qed.
+
+(* in the model the second phase cannot fail: every re-open finds the file the pre-pass made *)
+Theorem C16_linear_appends_never_fail :
+  forall out names blocks f, snd (extract_linear out names blocks f) = snd (create_all out names f).
+Proof. exact extract_linear_status. Qed.
+
+(* C16_extract_confined_with_symlinks and C16_benign_extracted_linear, re-stated through the pool *)
+Theorem C16_linear_through_pool_confined :
+  forall cap cut out names blocks f f' b, (forall d, concat (cut d) = d) ->
+    extract_linear_pool RAppend cap cut out names blocks f = (f', b) -> evolves out f f'.
+Proof. exact linear_through_pool_confined. Qed.
+
+Theorem C16_linear_through_pool_benign :
+  forall cap cut out names blocks f, (forall d, concat (cut d) = d) ->
+    real_dir f out -> Forall (fun n => benign out (n, [])) names ->
+    pairwise unrelated (map norm names) ->
+    Forall (fun n => clear_path out f (norm n)) names ->
+    exists f', extract_linear_pool RAppend cap cut out names blocks f = (f', true) /\
+      (forall name, In name names ->
+         read_file f' (out ++ norm name) =
+           Some (concat (map snd (filter (fun b => bytes_eqb (fst b) name) blocks)))) /\
+      (forall p, ~ prefix out p -> lookup f' p = lookup f p).
+Proof. exact linear_through_pool_benign. Qed.
+
+(* the wrong re-opens are false of the model: capacity 1, two members, three blocks.
+   `.write(true).truncate(true)` loses the first blocks of "a"; `.write(true)` (seeded changes
+   C12-m2 / C16-m3) overwrites its beginning *)
+Theorem C16_pool_reopen_truncate_refuted :
+  exists cap out names blocks f f',
+    cap = 1%nat /\ length names = 2%nat /\ length blocks = 3%nat /\
+    extract_linear_pool RTruncate cap whole_cut out names blocks f = (f', true) /\
+    read_file f' (out ++ [s2b "a"]) = Some (s2b "3") /\
+    read_file (fst (extract_linear out names blocks f)) (out ++ [s2b "a"]) = Some (s2b "113") /\
+    ~ same_fs f' (fst (extract_linear out names blocks f)).
+Proof. exact pool_reopen_truncate_refuted. Qed.
+
+Theorem C16_pool_reopen_write_refuted :
+  exists cap out names blocks f f',
+    cap = 1%nat /\
+    extract_linear_pool RWrite cap whole_cut out names blocks f = (f', true) /\
+    read_file f' (out ++ [s2b "a"]) = Some (s2b "31") /\
+    read_file (fst (extract_linear out names blocks f)) (out ++ [s2b "a"]) = Some (s2b "113").
+Proof. exact pool_reopen_write_refuted. Qed.
+
+(* the cuts used: io::copy's 8 KiB buffers, and one write per non-empty block *)
+Theorem C16_cuts_are_cuts : (forall d, concat (copy_cut d) = d) /\ (forall d, concat (whole_cut d) = d).
+Proof. exact (conj copy_cut_concat whole_cut_concat). Qed.
+
+(* Tie A: the capacity, the open flags of the miss path, the pre-pass before linear_extract *)
+Theorem C16_pool_source_facts :
+  N.of_nat POOL_CAP = MLAGen.Src.FILE_WRITER_POOL_SIZE /\
+  MLAGen.Src.POOL_reopen_flags = s2b "append" :: nil /\
+  MLAGen.Src.POOL_miss_then_put_then_get_mut = true /\
+  MLAGen.Src.EXTRACT_prepass_create_file_for_every_name_before_linear_extract = true /\
+  MLAGen.Src.EXTRACT_prepass_handle_dropped = true.
+Proof. exact pool_source_facts. Qed.
+
+(* (B1) ANY archive bytes `a` (hostile, truncated, garbage), any candidate keys, any constants and
+   primitives, any fuel, ANY initial file system with symbolic links, any output directory:
+   - whole-archive form through the pool (any capacity, any cut), INCLUDING the pieces that were
+     already delivered — part of the failing block included — when the block walk ends in an
+     error or a panic half-way (CliExtract.linear_extract_d; = Reader.linear_extract on success:
+     C16_delivered_walk_is_the_walk);
+   - selected-files form with ANY selection predicate (names or glob), get_file / create_file /
+     io::copy interleaved as in the code, a copy failing half-way included;
+   - the two pool-less commands of Cli.v:
+   the file system only `evolves`: no regular file outside the output directory is created,
+   truncated, appended to or removed, no symbolic link changes. *)
+Theorem C16_extract_archive_confined :
+  forall (CHUNK TAG BLOCK LIMIT FNMAX TS TC TA TE : N) (dh : bytes -> bytes -> bytes) (kdf : bytes -> bytes)
+    (wdec wtag : bytes -> bytes -> bytes) (ksf : bytes -> bytes -> N -> N -> N)
+    (tagf : bytes -> bytes -> N -> bytes -> bytes) (dec : bytes -> bytes)
+    (cap : nat) (cut : bytes -> list bytes) (lfuel : nat) (sel : bytes -> bool) (zf fuel : nat)
+    (a : bytes) (privs : list bytes) (out : path) (f : fs),
+    (forall d, concat (cut d) = d) ->
+    evolves out f (fst (cmd_extract_linear_pool CHUNK TAG BLOCK LIMIT FNMAX TS TC TA TE dh kdf wdec wtag ksf tagf dec
+                          cap cut lfuel a privs out f)) /\
+    evolves out f (fst (cmd_extract_selected CHUNK TAG BLOCK LIMIT FNMAX TS TC TA TE dh kdf wdec wtag ksf tagf dec
+                          sel zf fuel a privs out f)) /\
+    evolves out f (fst (cmd_extract_linear CHUNK TAG BLOCK LIMIT FNMAX TS TC TA TE dh kdf wdec wtag ksf tagf dec
+                          lfuel a privs out f)) /\
+    (forall wanted, evolves out f (fst (cmd_extract_listed CHUNK TAG BLOCK LIMIT FNMAX TS TC TA TE dh kdf wdec wtag ksf tagf dec
+                          zf fuel a privs wanted out f))).
+Proof. exact extract_archive_confined. Qed.
+
+Theorem C16_delivered_walk_is_the_walk :
+  forall FNMAX TS TC TA TE (S : Stream) fuel (r : rstate S) export,
+    linear_extract FNMAX TS TC TA TE S fuel r export = undeliver (linear_extract_d FNMAX TS TC TA TE S fuel r export).
+Proof. exact linear_extract_d_spec. Qed.
+
+(* an archive that does not open: the file system is left exactly as it was *)
+Theorem C16_extract_failed_open_untouched :
+  forall (CHUNK TAG BLOCK LIMIT FNMAX TS TC TA TE : N) (dh : bytes -> bytes -> bytes) (kdf : bytes -> bytes)
+    (wdec wtag : bytes -> bytes -> bytes) (ksf : bytes -> bytes -> N -> N -> N)
+    (tagf : bytes -> bytes -> N -> bytes -> bytes) (dec : bytes -> bytes)
+    (cap : nat) (cut : bytes -> list bytes) (lfuel : nat) (sel : bytes -> bool) (zf fuel : nat)
+    (a : bytes) (privs : list bytes) (out : path) (f : fs),
+    (forall x, cli_open CHUNK TAG BLOCK LIMIT dh kdf wdec wtag ksf tagf dec a privs <> Ok x) ->
+    cmd_extract_linear_pool CHUNK TAG BLOCK LIMIT FNMAX TS TC TA TE dh kdf wdec wtag ksf tagf dec cap cut lfuel a privs out f = (f, false) /\
+    cmd_extract_selected CHUNK TAG BLOCK LIMIT FNMAX TS TC TA TE dh kdf wdec wtag ksf tagf dec sel zf fuel a privs out f = (f, false).
+Proof. exact extract_failed_open_untouched. Qed.
+
+(* (B2) from the FILES given to `mlar create` to the file system after `mlar extract` of the
+   archive BYTES (premises of C01_archive_roundtrip = Cli.made_by_create; any layers, recipients,
+   candidate keys, piece cuts): benign names with a clear way in an otherwise arbitrary file system
+   — both forms, the whole-archive one through the pool of any capacity with any cut, exit status 0,
+   every member readable beneath the output directory with exactly the bytes given, the file
+   system only evolved; or an exhibited tag collision on a wrapped key.
+   (C01 ∘ C12_linear_delivers_written ∘ C16_benign_extracted(_linear) ∘ C16_linear_through_pool;
+   proved FROM C17_extract_both_forms_agree.) *)
+Theorem C16_extract_archive_benign :
+  forall (CHUNK TAG CIPHERBUF BLOCK LIMIT FNMAX TS TC TA TE : N) (H : bytes -> bytes) (order : footer -> footer)
+  (pubk : bytes -> bytes) (dh : bytes -> bytes -> bytes) (kdf : bytes -> bytes) (wenc wdec wtag : bytes -> bytes -> bytes)
+  (ksf : bytes -> bytes -> N -> N -> N) (tagf : bytes -> bytes -> N -> bytes -> bytes) (dec : bytes -> bytes),
+  0 < CHUNK -> 0 < TAG -> 0 < CIPHERBUF -> 0 < BLOCK -> BLOCK < 2 ^ 32 ->
+  tags_distinct TS TC TA TE ->
+  (forall x : bytes, len (H x) = 32) ->
+  (forall f : footer, Permutation (order f) f) ->
+  (forall (k : bytes) (m : list N), len m = 32 -> wdec k (wenc k m) = m) ->
+  (forall e : bytes, len (pubk e) = 32) ->
+  (forall (k : bytes) (m : list N), len m = 32 -> len (wenc k m) = 32) ->
+  (forall k c : bytes, len (wtag k c) = 16) ->
+  forall (cfg : wconfig) (ct cm : list N) (files : list (bytes * bytes)) (sf : wstate) (rs : list (res N))
+  (privs : list bytes) (s : bytes) (cap : nat) (cut : bytes -> list bytes) (sel : bytes -> bool)
+  (zf fuel lfuel : nat) (out : path) (f : fs),
+  made_by_create CHUNK TAG BLOCK LIMIT FNMAX TS TC TA TE H order pubk dh kdf wenc wtag ksf tagf dec cfg files sf rs privs s ->
+  (forall d, concat (cut d) = d) ->
+  (forall n d : bytes, In (n, d) files -> (length d < fuel)%nat) ->
+  (N.to_nat (len (w_out sf)) < lfuel)%nat ->
+  (forall n : bytes, In n (map fst files) -> sel n = true) ->
+  let ns := sort_names (map fst files) in
+  real_dir f out ->
+  Forall (fun n : bytes => benign out (n, [])) ns ->
+  pairwise unrelated (map norm ns) ->
+  Forall (fun n : bytes => clear_path out f (norm n)) ns ->
+  exists a : bytes,
+    cmd_create CHUNK CIPHERBUF BLOCK LIMIT FNMAX TS TC TA TE H order pubk dh kdf wenc wtag ksf tagf cfg ct cm files =
+      mkCR true (OWritten a) [] /\
+    (TagCollision pubk dh kdf wenc wtag (wc_eph cfg) (wc_key cfg) (wc_recipients cfg) privs \/
+     exists f1 f2 : fs,
+       cmd_extract_selected CHUNK TAG BLOCK LIMIT FNMAX TS TC TA TE dh kdf wdec wtag ksf tagf dec sel zf fuel a privs out f = (f1, true) /\
+       cmd_extract_linear_pool CHUNK TAG BLOCK LIMIT FNMAX TS TC TA TE dh kdf wdec wtag ksf tagf dec cap cut lfuel a privs out f = (f2, true) /\
+       (forall n d : bytes, In (n, d) files ->
+          read_file f1 (out ++ norm n) = Some d /\ read_file f2 (out ++ norm n) = Some d) /\
+       evolves out f f1 /\ evolves out f f2).
+Proof. exact extract_archive_benign. Qed.
+
+Print Assumptions C16_pool_transparent.
+Print Assumptions C16_pool_per_file_concatenation.
+Print Assumptions C16_pool_bounded.
+Print Assumptions C16_linear_through_pool.
+Print Assumptions C16_linear_appends_never_fail.
+Print Assumptions C16_linear_through_pool_confined.
+Print Assumptions C16_linear_through_pool_benign.
+Print Assumptions C16_pool_reopen_truncate_refuted.
+Print Assumptions C16_pool_reopen_write_refuted.
+Print Assumptions C16_cuts_are_cuts.
+Print Assumptions C16_pool_source_facts.
+Print Assumptions C16_extract_archive_confined.
+Print Assumptions C16_delivered_walk_is_the_walk.
+Print Assumptions C16_extract_failed_open_untouched.
+Print Assumptions C16_extract_archive_benign.
+
+(* non-vacuity (A): a pool of ONE handle, two members interleaved over three blocks and an empty
+   member that only the pre-pass creates: the code's append re-open gives every member its bytes *)
+Example C16_nonvacuous_pool :
+  let names := [s2b "a"; s2b "b"; s2b "e"] in
+  let blocks := [(s2b "a", s2b "11"); (s2b "b", s2b "2"); (s2b "e", []); (s2b "a", s2b "3")] in
+  let r := extract_linear_pool RAppend 1 copy_cut pool_out names blocks pool_fs0 in
+  snd r = true /\
+  read_file (fst r) (pool_out ++ [s2b "a"]) = Some (s2b "113") /\
+  read_file (fst r) (pool_out ++ [s2b "b"]) = Some (s2b "2") /\
+  read_file (fst r) (pool_out ++ [s2b "e"]) = Some [] /\
+  (* pool_ok is met by a pool that holds an open handle, and the handle count stays at 1 *)
+  (exists f pl, pl <> [] /\ pool_ok f pl) /\
+  pool_peak RAppend 1 [(pool_out ++ [s2b "a"], s2b "1"); (pool_out ++ [s2b "b"], s2b "2"); (pool_out ++ [s2b "a"], s2b "3")]
+            (fst (fst (create_all pool_out names pool_fs0))) [] = 1%nat.
+Proof.
+  cbv zeta. split; [vm_compute; reflexivity|]. split; [vm_compute; reflexivity|]. split; [vm_compute; reflexivity|].
+  split; [vm_compute; reflexivity|]. split; [|vm_compute; reflexivity].
+  destruct (pool_transparent 1 [(pool_out ++ [s2b "a"], s2b "1")] (fst (fst (create_all pool_out [s2b "a"] pool_fs0))) [] (pool_ok_nil _))
+    as (pl' & E & Hok).
+  eexists _, pl'. split; [|exact Hok]. intros ->. vm_compute in E. discriminate.
+Qed.
+
+(* non-vacuity (B): a concrete archive (no layer) written by the model's `create` from four files, one of them named
+   "../evil"; the file system holds a file "evil" next to the output directory.
+   - the intact archive: exit status 0, the three benign members extracted through a pool of ONE handle (the empty
+     member by the pre-pass alone), "../evil" skipped, the outside file untouched;
+   - the same bytes with byte 92 overwritten (the walk meets an invalid block after b.txt's content): exit status
+     non-zero, b.txt already holds its bytes (delivered before the failure), a/y was created by the pre-pass and never
+     received its bytes, the outside file is untouched — the situation C16_extract_archive_confined covers and the
+     pool-less Cli.cmd_extract_linear does not describe. *)
+From MLA Require Import ArchiveInst.
+From MLA.Concrete Require Sha256.
+Definition x16_files : list (bytes * bytes) :=
+  [ (s2b "b.txt", [1; 2; 3]); (s2b "a/x", []); (s2b "../evil", [6; 6]); (s2b "a/y", [9; 9; 9; 9]) ].
+Definition x16_id (b : bytes) : bytes := b.
+Definition x16_k2 (_ m : bytes) : bytes := m.
+Definition x16_tag (_ _ : bytes) : bytes := repeat 0 16%nat.
+Definition x16_pub (_ : bytes) : bytes := repeat 0 32%nat.
+Definition x16_dh (_ _ : bytes) : bytes := [].
+Definition x16_ksf (_ _ : bytes) (_ _ : N) : N := 0.
+Definition x16_tagf (_ _ : bytes) (_ : N) (_ : bytes) : bytes := repeat 0 16%nat.
+Definition x16_plain : wconfig := mkWC false false x16_id [] [] [] [].
+Definition x16_create := cmd_create 64 24 256 ex3_LIMIT 65536 MLAGen.Src.BT_FileStart MLAGen.Src.BT_FileContent MLAGen.Src.BT_EndOfArchiveData MLAGen.Src.BT_EndOfFile
+   Sha256.sha256 (fun f => f) x16_pub x16_dh x16_id x16_k2 x16_tag x16_ksf x16_tagf x16_plain [] [] x16_files.
+Definition x16_a : bytes := match cr_out x16_create with OWritten a => a | _ => [] end.
+Definition x16_fs0 : fs := [(out_, Dir); ([s2b "evil"], File (s2b "keep"))].
+Definition x16_extract (cap : nat) (a : bytes) : fs * bool :=
+  cmd_extract_linear_pool 64 16 256 ex3_LIMIT 65536 MLAGen.Src.BT_FileStart MLAGen.Src.BT_FileContent MLAGen.Src.BT_EndOfArchiveData MLAGen.Src.BT_EndOfFile
+    x16_dh x16_id x16_k2 x16_tag x16_ksf x16_tagf x16_id cap copy_cut 2000 a [] out_ x16_fs0.
+Definition x16_selected (a : bytes) : fs * bool :=
+  cmd_extract_selected 64 16 256 ex3_LIMIT 65536 MLAGen.Src.BT_FileStart MLAGen.Src.BT_FileContent MLAGen.Src.BT_EndOfArchiveData MLAGen.Src.BT_EndOfFile
+    x16_dh x16_id x16_k2 x16_tag x16_ksf x16_tagf x16_id (fun _ => true) 10 600 a [] out_ x16_fs0.
+Definition x16_corrupt (i : nat) (a : bytes) : bytes := firstn i a ++ [255] ++ skipn (S i) a.
+
+Example C16_nonvacuous_archive_bytes :
+  cr_ok x16_create = true /\
+  (let r := x16_extract 1 x16_a in
+   snd r = true /\ read_file (fst r) (out_ ++ [s2b "b.txt"]) = Some [1; 2; 3] /\
+   read_file (fst r) (out_ ++ [s2b "a"; s2b "x"]) = Some [] /\
+   read_file (fst r) (out_ ++ [s2b "a"; s2b "y"]) = Some [9; 9; 9; 9] /\
+   read_file (fst r) [s2b "evil"] = Some (s2b "keep")) /\
+  (let r := x16_selected x16_a in
+   snd r = true /\ read_file (fst r) (out_ ++ [s2b "a"; s2b "y"]) = Some [9; 9; 9; 9] /\
+   read_file (fst r) [s2b "evil"] = Some (s2b "keep")) /\
+  (let r := x16_extract 1 (x16_corrupt 92 x16_a) in
+   snd r = false /\ read_file (fst r) (out_ ++ [s2b "b.txt"]) = Some [1; 2; 3] /\
+   read_file (fst r) (out_ ++ [s2b "a"; s2b "y"]) = Some [] /\
+   read_file (fst r) [s2b "evil"] = Some (s2b "keep")).
+Proof. vm_compute. repeat split. Qed.
